@@ -43,6 +43,9 @@ pub mod slab {
         #[verifier::external_body] pub fn insert(&mut self, val: T) -> (r: usize)
             ensures !old(self)@.dom().contains(r), final(self)@ == old(self)@.insert(r, val), r == old(self).next_key(),
         { unimplemented!() }
+        #[verifier::external_body] pub fn len(&self) -> (r: usize) ensures r == self@.dom().len(), { unimplemented!() }
+        #[verifier::external_body] pub fn is_empty(&self) -> (r: bool) ensures r == (self@.dom().len() == 0), { unimplemented!() }
+        #[verifier::external_body] pub fn contains(&self, key: usize) -> (r: bool) ensures r == self@.dom().contains(key), { unimplemented!() }
         #[verifier::external_body] pub fn vacant_key(&self) -> (r: usize) ensures !self@.dom().contains(r), r == self.next_key(), { unimplemented!() }
     }
 }
